@@ -10,7 +10,7 @@ def run(ctx):
     ctx.rule = ("MC: every route x every class of Authorization header (none, wrong, malformed, non-UTF-8, correct, duplicated in both orders) x "
                 "every class of X-Tahoe-Authorization header per required kind (missing, malformed, each value, duplicated in both orders, "
                 "value + malformed, non-UTF-8, unknown kind, kind not required) x small arguments, from an empty server and from a server with "
-                "an upload in progress, a completed share and a mutable share; thorough adds interleavings of such requests. "
+                "an upload in progress, a completed share and a mutable share, and interleavings (2 deep quick, 3 deep thorough) of a reduced class set. "
                 "TRACE: raw requests against the real HTTPServer resource through StubTreq: the whole route x header-class product once per run "
                 "(concretised at random: several spellings per class) plus seeded requests, interleaved with a legitimate client's uploads, "
                 "read-test-writes and timeouts; recorded per request: status, abstracted body, whether the raw body contains stored share bytes, "
@@ -22,13 +22,14 @@ def run(ctx):
                         "storage indexes are used consistently (immutable routes on immutable storage indexes, mutable on mutable)"]
     consts = dict(Shares='{"0", "1"}', Size=2, MaxOps=1, USecrets='{"u1", "u2"}', Enablers='{"wA", "wB"}', AuthMode='"all"', HdrMode='"full"', Eps=hf.EPS)
     hf.run_mc(ctx, "MC_classes", consts, INV, PROPS)
+    hf.run_mc(ctx, "MC_interleavings_depth2", dict(consts, MaxOps=2, AuthMode='"few"', HdrMode='"few"'), INV, PROPS)
     if not ctx.quick:
         c2 = dict(consts, MaxOps=3, AuthMode='"few"', HdrMode='"few"')
         hf.run_mc(ctx, "MC_interleavings", c2, INV, PROPS, timeout=3000)
         c3 = dict(consts, MaxOps=2)
         hf.run_mc(ctx, "MC_classes_depth2", c3, INV, PROPS, timeout=3000)
-    n = 60 if ctx.quick else 600
-    ev = 24 if ctx.quick else 45
+    n = 80 if ctx.quick else 600
+    ev = 26 if ctx.quick else 45
     traces = ctx.impl("harness/http_driver.py", ["--mode", "authz", "--n", n, "--events", ev])
     nreq = 0
     for tr in traces:
